@@ -113,6 +113,10 @@ def confirm_ledger(real):
         leaked = [k for k, v in state.items() if v == "live"]
         if leaked:
             problems.append(f"never dropped: {leaked}")
+        # strings and list storage are plain heap objects: their leaks show as live allocations that outlive the call
+        if real.get("alloc_delta", 0) != 0:
+            problems.append(f"{real['alloc_delta']} heap allocation(s) made during the call are still live after it returned (strings / list storage leaked)"
+                            if real["alloc_delta"] > 0 else f"live heap allocations decreased by {-real['alloc_delta']} over the call (something freed that the call did not own)")
         return bool(problems), {"problems": problems[:10], "events": real["events"][:60]}
 
 
@@ -125,7 +129,7 @@ def confirm(prog, script, finding):
     if kind == "trap":
         r = tv.run_real(script, "main", sig, args, child=True)
         return (r.get("signal") is not None), r
-    r = tv.run_real(script, "main", sig, args, child=True)
+    r = tv.run_real(script, "main", sig, args, child=True, leakcheck=(kind == "ledger"))
     if r.get("signal") is not None or r.get("out") is None:
         return True, {"real": r, "note": "process died"}
     real = r["out"]
